@@ -289,5 +289,45 @@ _ADD = {
            'as_completed / run / call_and_wait x task ok / raising / unsendable x '
            '<=1 fault or pause: no worker stays acquired.',
 }
-for _k, _v in _ADD.items():
-  CHECKS[_k]['text'] += _v
+# ---- additions of waves 4-5 ---------------------------------------------------------
+_ADD2 = {
+    'C01': ' Unsorted / non-canonical list-valued configurations (k_list etc.).',
+    'C02': ' Aggregation state carried across steps (update_state per batch, '
+           'iterate(state=...), from_state) with every slicer kind.',
+    'C03': ' Source-level strategies over sources of 63-257 records (shards longer '
+           'than the 64-element read-ahead window, shards of shards, merged '
+           'sequences, ShardedIterable), threaded configurations with more records '
+           'than the output queue holds.',
+    'C05': ' A failure followed by a plain stop request (the failure must stay '
+           'visible), consumers that look only after the failure / stop.',
+    'C06': ' Fault-free runs with every subset of <=2 late replies; worker '
+           'shuffles as environment choices; a killed worker rejoining at any '
+           'later RPC boundary (kill + restart).',
+    'C08': ' Falsy but valid keys (Index(0), 0, (), Key()) in every key position '
+           'of every operator; aggregate(fn, input_keys, output_keys) through '
+           'three drivers.',
+    'C09': ' Every API method on every reachable receiver (shard, nested shard, '
+           'sibling, shard iterator, restored object); MultiplexIterator.from_state.',
+    'C10': ' The same in-memory state restored twice; sources of 63-260 rows with '
+           'cuts at the read-ahead window edges; pipelines with sliced aggregates.',
+    'C11': ' Null states (empty batch added; rows that advance a counter but not '
+           'the main table) as operands in every law and in the BFS.',
+    'C12': ' Sources of 63-200 elements with failing indices at the 64/16/4/1 '
+           'read-window edges.',
+    'C14': ' Stop/start cycles of the server object (1-2 restarts); shutdown of a '
+           'prefetching server while a request is pending on a slow endless '
+           'generator.',
+    'C15': ' Shutdown (own request / signal) while a request is pending on a slow '
+           'endless generator: answered or dropped loudly, prefetch thread ends.',
+    'C16': ' Worker shuffles of the drivers as environment choices (<=2 '
+           'deviations, alone and with one late reply).',
+    'C17': ' Cache laws over serialised copies of expressions whose arguments are '
+           'unhashable and not value-equal across copies.',
+    'C18': ' Aliased subtrees (one container reachable through several paths) '
+           'through every driver.',
+    'C19': ' Columns whose rows are not scalars ((n,d), (n,d,e), nested lists); '
+           'zero-row batches at every position of the stream.',
+}
+for _add in (_ADD, _ADD2):
+  for _k, _v in _add.items():
+    CHECKS[_k]['text'] += _v
